@@ -228,7 +228,10 @@ impl<M: Math> AdaptStrategy<M> for ExternalTransformAdaptation {
                 )?;
             }
             self.step_size.update_estimator_early();
-            self.step_size.update_stepsize(rng, hamiltonian, false);
+            // If the final step size window is empty this is the last warmup draw:
+            // sampling has to start from the averaged step size.
+            let is_last = draw == self.num_tune - 1;
+            self.step_size.update_stepsize(rng, hamiltonian, is_last);
             return Ok(());
         }
 
